@@ -150,6 +150,22 @@ func c03Scenario(nConn int) *explore.Scenario {
 			cfg.OmitEmptyPsk = true
 			cfg.Rand = newScriptRand(fmt.Sprintf("c03-%d", conn))
 			what := fmt.Sprintf("%s sni-len=%d conn=%d build-order=%d", n.Name, len(sni), conn, build)
+			// version bounds the application left in its Config: a parrot's hello is described by its spec
+			// (TLSVersMin / TLSVersMax / supported_versions), whatever the Config said before
+			switch x.Choose("config-version-bounds", 5) {
+			case 1:
+				cfg.MinVersion, cfg.MaxVersion = tls.VersionTLS10, tls.VersionTLS11
+				what += " Config{Min:1.0,Max:1.1}"
+			case 2:
+				cfg.MinVersion, cfg.MaxVersion = tls.VersionTLS10, tls.VersionTLS10
+				what += " Config{Min:1.0,Max:1.0}"
+			case 3:
+				cfg.MaxVersion = tls.VersionTLS11
+				what += " Config{Max:1.1}"
+			case 4:
+				cfg.MinVersion = tls.VersionTLS13
+				what += " Config{Min:1.3}"
+			}
 			// reference spec: a second, independent UTLSIdToSpec call
 			spec, err := tls.UTLSIdToSpec(n.ID)
 			if err != nil {
